@@ -716,31 +716,36 @@ def cert_correspondence(ctx, F, np, eps, n_filters):
         files.append(("cert_%d" % si, group_body(items)))
     res = C.coq_eval_many(ctx, files, REQ, timeout=1500)
     mismatches = []
+    failing = []
     for (name, _), (ans, log), sh in zip(files, res, shards):
         if ans is not None:
             ctx.cov["traces_validated_against_impl"] += sum(groups[gi][1] - groups[gi][0] for gi in sh)
-            continue
-        # locate the failing filter, then the failing goal
-        for gi in sorted(sh):
-            items = G.items[groups[gi][0]:groups[gi][1]]
-            a2, l2 = C.coq_eval(ctx, "cert_one_filter", group_body(items), REQ, timeout=900)
+        else:
+            failing.append(sh)
+    if failing:
+        # localise (bounded work): the filters of the first failing shard in parallel, then the
+        # goals of its first failing filter in parallel
+        sh = sorted(failing[0])
+        fl = [("cert_f%d" % k, group_body(G.items[groups[gi][0]:groups[gi][1]])) for k, gi in enumerate(sh)]
+        rf = C.coq_eval_many(ctx, fl, REQ, timeout=900)
+        bad_filters = [gi for gi, (a2, _) in zip(sh, rf) if a2 is None]
+        for gi, (a2, _) in zip(sh, rf):
             if a2 is not None:
-                ctx.cov["traces_validated_against_impl"] += len(items)
-                continue
-            found_goal = False
-            for it in items:
-                a3, l3 = C.coq_eval(ctx, "cert_one_goal", group_body([it]), REQ, timeout=600)
-                if a3 is None:
-                    found_goal = True
+                ctx.cov["traces_validated_against_impl"] += groups[gi][1] - groups[gi][0]
+        ctx.count("cert:failing-shards", len(failing))
+        ctx.count("cert:failing-filters-in-first-shard", len(bad_filters))
+        if bad_filters:
+            gi = bad_filters[0]
+            items = G.items[groups[gi][0]:groups[gi][1]][:36]
+            gl = [("cert_g%d" % k, group_body([it])) for k, it in enumerate(items)]
+            rg = C.coq_eval_many(ctx, gl, REQ, timeout=600)
+            for it, (a3, l3) in zip(items, rg):
+                if a3 is None and len(mismatches) < 4:
                     mismatches.append((it[2], (l3 or "")[-600:]))
-                    if len(mismatches) >= 4:
-                        break
-            if not found_goal:
-                mismatches.append((dict(items[0][2], note="enclosure lemma of this filter failed"), (l2 or "")[-600:]))
-            if len(mismatches) >= 4:
-                break
-        if len(mismatches) >= 4:
-            break
+            if not mismatches:
+                mismatches.append((dict(items[0][2], note="only fails together with the other goals of this filter"), ""))
+        else:
+            mismatches.append((dict(G.items[groups[sh[0]][0]][2], note="shard fails as a whole only"), (res[shards.index(failing[0])][1] or "")[-600:]))
     for case, log in mismatches:
         ctx.fail("implementation value is not within tolerance of the model: %r" % (case,),
                  dict(case=case, correspondence="Interval-certified comparison against coq/C07/Model.v", log_tail=log), kind="correspondence")
